@@ -128,8 +128,8 @@ struct HObj {
 template <class T> struct HashW : HObj {
     alignas(16) unsigned char mem[sizeof(T)];
     T *o;
-    HashW() { o = new (mem) T(); }
-    HashW(const HashW &x) : HObj() { o = new (mem) T(*x.o); }
+    HashW() { memset(mem, 0xD7, sizeof mem); o = new (mem) T(); }
+    HashW(const HashW &x) : HObj() { memset(mem, 0xD7, sizeof mem); o = new (mem) T(*x.o); }
     void upd_ptr(const uint8_t *p, size_t n) override { o->update(p, n); }
     void upd_cstr(const char *s) override { o->update(s); }
     void upd_ba(const ascon::byte_array &b) override { o->update(b); }
@@ -147,10 +147,10 @@ template <class T> struct HashW : HObj {
 template <class T> struct XofW : HObj {
     alignas(16) unsigned char mem[sizeof(T)];
     T *o;
-    XofW() { o = new (mem) T(); }
-    XofW(const XofW &x) : HObj() { o = new (mem) T(*x.o); }
-    XofW(const char *name, const unsigned char *custom, size_t len) { o = new (mem) T(name, custom, len); }
-    XofW(const char *name, const ascon::byte_array &custom) { o = new (mem) T(name, custom); }
+    XofW() { memset(mem, 0xD7, sizeof mem); o = new (mem) T(); }
+    XofW(const XofW &x) : HObj() { memset(mem, 0xD7, sizeof mem); o = new (mem) T(*x.o); }
+    XofW(const char *name, const unsigned char *custom, size_t len) { memset(mem, 0xD7, sizeof mem); o = new (mem) T(name, custom, len); }
+    XofW(const char *name, const ascon::byte_array &custom) { memset(mem, 0xD7, sizeof mem); o = new (mem) T(name, custom); }
     void upd_ptr(const uint8_t *p, size_t n) override { o->absorb(p, n); }
     void upd_cstr(const char *s) override { o->absorb(s); }
     void upd_ba(const ascon::byte_array &b) override { o->absorb(b); }
